@@ -140,4 +140,42 @@ theorem forgery_rejected (H : Bytes → Bytes) (root k' v' x y : Bytes) (rest : 
   rw [verifyKV_eq_old, decodeProof_encProof _ hn]
   simp [goodBranch]
 
+/-! ### every branch record binds the child hash (seeded regression C03b) -/
+
+/-- **branch_binds_child** — the fold step of `Proof.Verify` (`InnerNodeProofHash`) binds the hash coming up from
+the leaf for EVERY branch record, whatever sides it carries (one — what the store emits —, both, none): left empty
+⇒ the child is hashed as the left side; otherwise the child REPLACES the right side.  Two different 32-byte child
+hashes give different results, or a collision.  (`proof_sound`, `verify_membership`, `fold_inj` are stated for
+arbitrary proof bytes / records and rest on this step.) -/
+theorem branch_binds_child {H : Bytes → Bytes} (b : InnerNode) (c c' : Bytes) (hc : c.length = 32)
+    (hc' : c'.length = 32) (e : innerNodeProofHash H c b = innerNodeProofHash H c' b) : c = c' ∨ Collision H :=
+  step_inj hc hc' b e
+
+/-- **own_record_is_no_proof** — the node's own database record (both child hashes filled in) offered as the only
+branch of a proof: accepted for `(k, v)` only if the leaf hash of `(k, v)` IS the right child hash (the leaf on the
+right of a height-1 root, a pair that is in the state) — or a collision. -/
+theorem own_record_is_no_proof {H : Bytes → Bytes} (hlen : ∀ x, (H x).length = 32) (l r : Bytes) (ht sz : Int)
+    (hl : l ≠ []) (hr : r.length = 32) (k v : Bytes)
+    (hv : (⟨H (leafEnc k v), [⟨l, r, ht, sz⟩], H (innerEnc l r ht sz)⟩ : Proof).verify H k v
+      (H (innerEnc l r ht sz)) = true) :
+    H (leafEnc k v) = r ∨ Collision H := by
+  have e1 : l.isEmpty = false := by cases l <;> simp_all
+  cases hg : goodBranch ⟨l, r, ht, sz⟩ with
+  | false => simp [Proof.verify, verifyLoop, hg] at hv
+  | true =>
+    simp only [Proof.verify, bne_self_eq_false, Bool.false_eq_true, if_false, last32_of_length (hlen _),
+      verifyLoop, hg, if_true, innerNodeProofHash, e1, beq_iff_eq] at hv
+    rcases eq_or_collision hv with e | c
+    · exact Or.inl (innerEnc_inj_right (hlen _) hr e)
+    · exact Or.inr c
+
+/-- **fill_only_empty_side_forgery** (regression witness) — had the step filled the child hash only into an EMPTY
+side (`innerNodeProofHashFill`), the root's own record would verify EVERY `(k, v)` against that root. -/
+theorem fill_only_empty_side_forgery (H : Bytes → Bytes) (hlen : ∀ x, (H x).length = 32) (l r : Bytes) (ht sz : Int)
+    (hl : l ≠ []) (hr : r ≠ []) (hht : 1 ≤ ht) (hsz : 2 ≤ sz) (k v : Bytes) :
+    (⟨H (leafEnc k v), [⟨l, r, ht, sz⟩], H (innerEnc l r ht sz)⟩ : Proof).verifyWith (innerNodeProofHashFill H) H k v
+      (H (innerEnc l r ht sz)) = true ∧
+    ∀ p k v root, Proof.verifyWith (innerNodeProofHash H) H p k v root = p.verify H k v root :=
+  ⟨fill_root_record_accepts_all H hlen l r ht sz hl hr hht hsz k v, verifyWith_eq H⟩
+
 end C03
